@@ -151,7 +151,7 @@ func cmdCheck(args []string) int {
 	var fcs []*FuncContract
 	pkgs := map[string]bool{}
 	for _, fc := range cs.Funcs {
-		if fc.Tags[prop] && !fc.External && !fc.Flags["trusted"] {
+		if fc.Tags[prop] && !fc.External && !fc.Flags["trusted"] && !isInterfaceContract(fc) {
 			fcs = append(fcs, fc)
 			pkgs[fc.Pkg] = true
 		}
@@ -164,6 +164,14 @@ func cmdCheck(args []string) int {
 				if lm.Pkg != "" {
 					pkgs[lm.Pkg] = true
 				}
+			}
+		}
+	}
+	var boundeds []*BoundedCheck
+	for _, bc := range cs.Bounded {
+		for _, t := range bc.Tags {
+			if t == prop {
+				boundeds = append(boundeds, bc)
 			}
 		}
 	}
@@ -453,6 +461,25 @@ func cmdCheck(args []string) int {
 			fmt.Printf("  obligation %s: %s (%s) %s\n", o.Name, o.Status, o.Src, firstLines(o.Output, 2))
 		}
 	}
+	// bounded stand-ins: exhaustive execution of the real code over the stated finite domain
+	var boundedEv []any
+	for _, bc := range boundeds {
+		if *only != "" && !strings.Contains(bc.Name, *only) {
+			continue
+		}
+		okb, evals, out := runBounded(bc)
+		entry := map[string]any{"name": bc.Name, "expression": bc.GoExpr, "domain": fmt.Sprint(bc.Vars), "evaluations": evals, "exhaustive": true, "holds": okb}
+		boundedEv = append(boundedEv, entry)
+		if !okb {
+			violations++
+			rp := filepath.Join(replayDir, prop+"_bounded_"+fileSafe(bc.Name)+".json")
+			writeJSON(rp, map[string]any{"property": prop, "obligation": "bounded:" + bc.Name, "verdict": "reproduced", "real_output": lastLines(out, 12), "clause": bc.GoExpr})
+			fmt.Printf("VIOLATION property=%s replay=%s\n", prop, rp)
+			fmt.Printf("  bounded check %s fails on the real code: %s\n", bc.Name, firstLines(lastLines(out, 6), 3))
+		} else {
+			fmt.Printf("  bounded check %s: %d evaluations of the real code, all hold (bounded, not counted as proved)\n", bc.Name, evals)
+		}
+	}
 	if total == 0 && violations == 0 {
 		return fail("zero obligations generated (vacuity guard)")
 	}
@@ -467,7 +494,7 @@ func cmdCheck(args []string) int {
 		"generation_seconds":       round3(genS),
 		"backends":                 backends,
 		"notes":                    notes,
-		"bounded":                  []string{},
+		"bounded":                  boundedEv,
 	}
 	writeEvidence(prop, *tier, seed, &[2]int{total, discharged}, samples, wall, violations, sortedKeys(assume), sortedKeys(trusted), extra)
 	fmt.Printf("%s: %d obligations, %d discharged, %d known findings, %d violations, %.1fs (load %.1fs, gen %.1fs)\n", prop, total, discharged, len(knownHit), violations, wall, loadS, genS)
@@ -475,6 +502,15 @@ func cmdCheck(args []string) int {
 		return 1
 	}
 	return 0
+}
+
+// isInterfaceContract: contracts on interface methods (store, adapter, auth ...) are assumptions about the
+// implementations behind the interface; there is no body to verify them against here.
+func isInterfaceContract(fc *FuncContract) bool {
+	if fc.Recv == "" {
+		return false
+	}
+	return strings.HasSuffix(fc.Recv, "Interface") || fc.Recv == "Adapter" || fc.Recv == "AuthHandler" || fc.Recv == "Handler" || fc.Recv == "Validator"
 }
 
 func round3(f float64) float64 { return float64(int(f*1000)) / 1000 }
